@@ -387,6 +387,8 @@ namespace sse
                 // explicit map: node 0 fixed value, node 4 fixed gradient, others core
                 r.status[0] = FIXED_VALUE;
                 r.status[4] = FIXED_GRADIENT;
+                if (g.smode >= 3)
+                    r.constructible = false;  // looped entry (3) / out-of-range key (4)
             }
             // areas: filled by the mesh harness (C18) with its own model; flow harnesses use
             // the library's nodes_areas (bound to this model by C18).
